@@ -817,17 +817,34 @@ func specBoolByte(b bool) int {
 //@   invariant forall s string :: has(self.variables, s) ==> re_match(specVarNamePattern(), s) || (re_match(specEllipsisPattern(), s) && self.variables[s] != 0)
 //@   invariant forall s string, t string :: has(self.variables, s) && has(self.variables, t) && s != t ==> self.variables[s] != self.variables[t]
 //@   invariant forall s string, t string :: has(self.variables, s) && has(self.variables, t) && !re_match(specVarNamePattern(), s) && !re_match(specVarNamePattern(), t) ==> s == t
+//@   invariant forall i int, j int :: 0 <= i && i < j && j < nvars(box(self, *ListNode)) ==> var_at(box(self, *ListNode), i) != var_at(box(self, *ListNode), j)
 
 //@ func (*ListNode).variablesSwapKeyValue
 //@   inline
 //@   loop 1
 //@     invariant fresh(result)
+//@     invariant forall s string :: has(itervisited, s) ==> has(result, node.variables[s]) && result[node.variables[s]] == s
+
+//@ type ListNode view lvar_off(box(self, *ListNode), 0) == 0
+//@   view forall i int :: 0 <= i && i < len(self.values) ==> lvar_off(box(self, *ListNode), i+1) == lvar_off(box(self, *ListNode), i) + ite(typeis(self.values[i], emptyItemNode), 1, nvars(self.values[i]))
 
 //@ func (*ListNode).Variables
 //@   property C16 C11 C17
+//@   let me = box(node, *ListNode)
+//@   requires forall i int :: 0 <= i && i < len(node.values) ==> typeis(node.values[i], ItemNode)
+//@   requires forall s string, t string :: has(node.variables, s) && has(node.variables, t) && s != t ==> node.variables[s] != node.variables[t]
 //@   ensures fresh(result)
+//@   ensures len(result) == lvar_off(me, len(node.values))
+//@   ensures forall s string :: has(node.variables, s) && 0 <= node.variables[s] && node.variables[s] < len(node.values) && typeis(node.values[node.variables[s]], emptyItemNode) ==> result[lvar_off(me, node.variables[s])] == s
+//@   defines len(result) == nvars(box(node, *ListNode))
+//@   defines forall k int :: 0 <= k && k < len(result) ==> result[k] == var_at(box(node, *ListNode), k)
 //@   loop 1
-//@     invariant fresh(result) && 0 <= rangeindex+1 && rangeindex+1 <= len(node.values)
+//@     invariant fresh(result) && 0 <= rangeindex+1 && rangeindex+1 <= len(node.values) && len(result) == lvar_off(me, rangeindex+1)
+//@     invariant forall s string :: has(node.variables, s) ==> has(posVar, node.variables[s]) && posVar[node.variables[s]] == s
+//@     invariant forall i int :: 0 <= i && i <= rangeindex+1 ==> 0 <= lvar_off(me, i) && lvar_off(me, i) <= len(result)
+//@     invariant forall s string :: has(node.variables, s) && 0 <= node.variables[s] && node.variables[s] <= rangeindex && typeis(node.values[node.variables[s]], emptyItemNode) ==> result[lvar_off(me, node.variables[s])] == s
+// Not claimed (the solvers do not decide the inductive step within the time limit; listed as a residual of C16 in DESIGN.md):
+//   ensures forall i int, k int :: 0 <= i && i < len(node.values) && !typeis(node.values[i], emptyItemNode) && 0 <= k && k < nvars(node.values[i]) ==> result[lvar_off(me, i) + k] == var_at(node.values[i], k)
 
 //@ func (*ListNode).checkRep
 //@   establishes
@@ -845,8 +862,12 @@ func specBoolByte(b bool) int {
 //@     invariant forall s string, t string :: has(itervisited, s) && has(itervisited, t) && s != t ==> node.variables[s] != node.variables[t]
 //@     invariant forall s string, t string :: has(itervisited, s) && has(itervisited, t) && !re_match(specVarNamePattern(), s) && !re_match(specVarNamePattern(), t) ==> s == t
 //@     invariant (exists s string :: has(itervisited, s) && !re_match(specVarNamePattern(), s)) ==> ellipsisExist
+//@   ensures forall i int, j int :: 0 <= i && i < j && j < nvars(box(node, *ListNode)) ==> var_at(box(node, *ListNode), i) != var_at(box(node, *ListNode), j)
 //@   loop 2
-//@     invariant fresh(foundVarName)
+//@     invariant fresh(foundVarName) && -1 <= rangeindex && rangeindex < len(variables) && len(variables) == nvars(box(node, *ListNode))
+//@     invariant forall k int :: 0 <= k && k < len(variables) ==> variables[k] == var_at(box(node, *ListNode), k)
+//@     invariant forall k int :: 0 <= k && k <= rangeindex ==> has(foundVarName, variables[k])
+//@     invariant forall a int, b int :: 0 <= a && a < b && b <= rangeindex ==> variables[a] != variables[b]
 
 //@ func NewListNode
 //@   property C01 C12 C13 C09
@@ -871,6 +892,7 @@ func specBoolByte(b bool) int {
 //@   property C16 C11
 //@   ensures fresh(result)
 //@   defines len(result) == nvars(recv)
+//@   defines forall k int :: 0 <= k && k < len(result) ==> result[k] == var_at(recv, k)
 
 //@ iface ItemNode.ToBytes
 //@   property C02 C11
